@@ -382,6 +382,42 @@ void run(size_t idx) {
 		return;
 	}
 	idx -= nExh;
+	if (idx >= p.api) {
+		// more triangles than a 16-bit counter holds (only FO4 and later store that many): a regular grid, two successive deletions
+		size_t k = idx - p.api;
+		const char* ver = k % 2 ? "FO76" : "FO4";
+		Rng rng(mix(g_cfg.seed, 0xC09B00 + k));
+		int side = 186 + (int)rng.below(12);
+		Mesh mesh;
+		for (int y = 0; y < side; y++)
+			for (int x = 0; x < side; x++) { mesh.verts.push_back(Vector3((float)x, (float)y, (float)((x * 7 + y * 3) % 5))); mesh.uvs.push_back(Vector2((float)x / side, (float)y / side)); mesh.normals.push_back(Vector3(0, 0, 1)); }
+		for (int y = 0; y + 1 < side; y++)
+			for (int x = 0; x + 1 < side; x++) {
+				uint16_t a = (uint16_t)(y * side + x), b = (uint16_t)(a + 1), c = (uint16_t)(a + side), d = (uint16_t)(c + 1);
+				mesh.tris.push_back(Triangle(a, b, c));
+				mesh.tris.push_back(Triangle(b, d, c));
+			}
+		NifFile nif;
+		nif.Create(toNiVersion(*findVer(ver)));
+		NiShape* s = nif.CreateShapeFromData("grid", &mesh.verts, &mesh.tris, &mesh.uvs, &mesh.normals);
+		if (!s) return;
+		std::string what = fmt("grid %s %dx%d: %zu vertices, %zu triangles", ver, side, side, mesh.verts.size(), mesh.tris.size());
+		R_caseDesc(what);
+		if (s->GetNumTriangles() != mesh.tris.size()) { R_stat("large_grid_not_accepted"); return; }
+		for (int round = 0; round < 2; round++) {
+			uint16_t nv = s->GetNumVertices();
+			std::vector<uint16_t> del;
+			for (uint16_t v = 0; v < nv; v++) if (rng.coin(4000)) del.push_back(v);
+			del.push_back((uint16_t)(nv - 1 - round));
+			std::sort(del.begin(), del.end());
+			del.erase(std::unique(del.begin(), del.end()), del.end());
+			if (!deleteAndCheck(nif, s, del, what)) return;
+			s = nif.GetShapes().at(0);
+		}
+		R_stat("shapes_with_more_than_65535_triangles");
+		R_cover(what);
+		return;
+	}
 	{
 		uint64_t seed = mix(g_cfg.seed, 0xC09A00 + idx);
 		Rng rng(seed);
@@ -409,11 +445,11 @@ void run(size_t idx) {
 }
 
 MonReg reg({"C09", "exploration",
-			"shapes: NiTriShape, NiTriStrips (hand-built strips), BSTriShape, BSDynamicTriShape, BSSubIndexTriShape with FO4 segments, skinned (NiSkinData+partitions, BSSkin) and "
+			"shapes: FO4 / FO76 grids with more than 65535 triangles, NiTriShape, NiTriStrips (hand-built strips), BSTriShape, BSDynamicTriShape, BSSubIndexTriShape with FO4 segments, skinned (NiSkinData+partitions, BSSkin) and "
 			"unskinned, from API-built models in six versions and from the real samples. Index sets (always sorted, duplicate-free): single, prefix, suffix incl. the last vertex, "
 			"alternating, all, last only, random sparse/dense; 1..5 successive deletions; exhaustively every non-empty subset of meshes with 1..5 (quick) / 1..7 (thorough) vertices in "
 			"six versions, skinned and unskinned. Oracle vs reference model: survivors in order with bit-identical positions/UVs/normals/tangents/colours/eye data/vertex weights; "
 			"triangle list == filtered, re-indexed originals in order; NiSkinData weights and LOCKEDNORM lists restricted and re-indexed; every index in triangles, strips, skin weights, "
 			"partition maps in range; counters equal sizes; C10 partition invariants; FO4 segment table partitions the triangles and labels survive; geometry stable across save+reload and every per-vertex attribute read back from the saved file equals the model after the deletions (exact for NiGeometry data, storage tolerance for BSTriShape); partition bones/weights still agree with NiSkinData where they did before.",
-			[] { Plan p = plan(); return realSamples().size() * p.realRounds + 6 * 2 * (size_t)p.exhMax + p.api; }, run, 8, 300.0, false, false, nullptr});
+			[] { Plan p = plan(); return realSamples().size() * p.realRounds + 6 * 2 * (size_t)p.exhMax + p.api + (g_cfg.tier ? 12 : 2); }, run, 8, 300.0, false, false, nullptr});
 } // namespace
